@@ -331,6 +331,7 @@ func runC09(w *World, r *Report) {
 
 	shareRule(w, r, "C09.task-published-after-its-result", "the executor records a node's panic in the task before it hands the task back to the run loop (one deferred function, or the hand-over registered first): the loop goroutine must not read err / output of a task that is still being written", 2, "C03", "C03.push-on-every-exit")
 	shareRule(w, r, "C09.concat-writes-a-map-of-its-own", "concatenating map chunks writes into a fresh map: copies of a stream hand every receiver the same chunk objects, and a receiver that concatenates into the first chunk rewrites what the other receivers — and later or concurrent runs replaying the same chunks — still read", 1, "C14", "C14.inputs-immutable")
+	shareRule(w, r, "C09.static-value-stream-per-run", "a consumable stream is built per call, never once at Compile: every Stream run of a compiled workflow gets its own static-value reader (a second run on a shared one closes a closed channel)", 1, "C15", "C15.static-values-per-run")
 
 	r.Rule("C09.handler-state-own-run-only", "a callback handler is inherited through the context by every component of its kind that starts below the run it was given to — a compiled graph run by a tool, the agent's graph nested in a parent graph — so a handler method with state of its own (it stores into a receiver field, closes a channel or an object held there) does that only under a test of something read from the context it is handed: otherwise a nested run's start and end are taken for the run's own", 3)
 	{
@@ -510,6 +511,46 @@ func runC09(w *World, r *Report) {
 		}
 		if n == 0 {
 			r.Info("C09.result-slice-is-own", "no append in components/prompt", token.NoPos, "nothing to decide")
+		}
+	}
+	r.Rule("C09.no-append-onto-captured-slices", "no function literal of the bundled flows (handlers and lambdas built once in a constructor, run per call) appends onto a slice captured from the constructor: with spare capacity every run writes its elements into the one backing array, and two overlapping runs read each other's input (the host agent's model is shown the other run's messages)", 0)
+	{
+		n := 0
+		for _, fn := range w.RepoFuncs("flow") {
+			if fn.Parent() == nil {
+				continue
+			}
+			instrs(fn, func(in ssa.Instruction) {
+				c, ok := in.(*ssa.Call)
+				if !ok || !isBuiltin(c, "append") {
+					return
+				}
+				v := c.Call.Args[0]
+				captured := false
+				for d := 0; d < 4 && v != nil; d++ {
+					switch x := v.(type) {
+					case *ssa.FreeVar:
+						captured = true
+						v = nil
+					case *ssa.UnOp:
+						v = x.X
+					case *ssa.Slice:
+						v = x.X
+					default:
+						v = nil
+					}
+				}
+				if !captured {
+					return
+				}
+				// a store back into the same captured variable is a build-up of that variable (checked by CAPTURE-WRITE), not
+				// a per-call result
+				n++
+				r.Fail("C09.no-append-onto-captured-slices", fmt.Sprintf("%s appends onto a captured slice", w.fname(fn)), c.Pos(), "the first operand of the append is a slice captured from the constructor ("+valText(c.Call.Args[0])+"): built once with spare capacity, it makes every call write into the same backing array — two concurrent runs of the host multi-agent show the host model the other run's messages")
+			})
+		}
+		if n == 0 {
+			r.OK("C09.no-append-onto-captured-slices", "no literal of flow/* appends onto a captured slice", token.NoPos, "none")
 		}
 	}
 	r.Rule("C09.reslice-append", "no append onto a re-slice (x[:k]) of a parameter slice or of a slice held in a field of a shared object, except the owner's delete-in-place stored back into the same field", 1)
